@@ -488,7 +488,7 @@ func (c *Ctx) call(x *ast.CallExpr, in []cst, deferred, goStmt bool) []cst {
 	out := c.emit(&Event{Kind: EvCall, Node: x, Pos: x.Pos(), Call: x, Callee: callee, Deferred: deferred, Go: goStmt}, in)
 	if !deferred && !goStmt {
 		if fn, ok := callee.(*types.Func); ok {
-			out = c.inlineCallee(fn, out)
+			out = c.inlineCallee(fn, x, out)
 		}
 	}
 	return out
@@ -500,7 +500,12 @@ func (c *Ctx) call(x *ast.CallExpr, in []cst, deferred, goStmt bool) []cst {
 var DefaultInline func(p *prog.Prog, fi *prog.FuncInfo) bool
 
 // inlineCallee simulates the body of a statically resolved same-package function in place.
-func (c *Ctx) inlineCallee(fn *types.Func, in []cst) []cst {
+// BindCall is told when an inlined callee's body is entered for a particular call, so that the
+// rules' identifier resolution can let the callee's parameters stand for that call's arguments;
+// the function it returns is called when the body has been simulated.
+var BindCall func(callerInfo *types.Info, fi *prog.FuncInfo, call *ast.CallExpr) func()
+
+func (c *Ctx) inlineCallee(fn *types.Func, call *ast.CallExpr, in []cst) []cst {
 	if len(in) == 0 || c.Depth >= 3 || fn.Pkg() == nil || fn.Pkg() != c.rootPkg {
 		return in
 	}
@@ -527,6 +532,9 @@ func (c *Ctx) inlineCallee(fn *types.Func, in []cst) []cst {
 		return in // direct recursion into the root
 	}
 	savedInfo := c.Info
+	if BindCall != nil && call != nil {
+		defer BindCall(savedInfo, fi, call)()
+	}
 	c.Info = fi.Pkg.TypesInfo
 	c.stack = append(c.stack, fn)
 	out := c.inlineFrame(fi.Decl.Body, in)
@@ -886,6 +894,18 @@ func (c *Ctx) flagLocal(obj types.Object) bool {
 	return res
 }
 
+// isCondExpr: a boolean expression worth following as a condition (comparisons, negations,
+// conjunctions / disjunctions, identifiers, selectors, calls); literals of other kinds are not.
+func isCondExpr(e ast.Expr) bool {
+	switch x := ast.Unparen(e).(type) {
+	case *ast.BinaryExpr, *ast.Ident, *ast.SelectorExpr, *ast.CallExpr:
+		return true
+	case *ast.UnaryExpr:
+		return x.Op == token.NOT
+	}
+	return false
+}
+
 // errCell names the storage an error-valued expression reads: a local error variable `err`, or
 // the cell behind a local pointer `*p` (p *error). The object of the variable is returned.
 func errCell(info *types.Info, x ast.Expr) types.Object {
@@ -1043,6 +1063,39 @@ func (c *Ctx) stmt(s ast.Stmt, in []cst, label string) flow {
 					}
 				}
 				return flow{out: dedup(out)}
+			}
+		}
+		// `flag = <condition>` on a boolean local of the function is `if <condition> { flag = true }
+		// else { flag = false }`: the flag's automatic atom records which way the condition went
+		if len(x.Lhs) == 1 && len(x.Rhs) == 1 && (x.Tok == token.DEFINE || x.Tok == token.ASSIGN) {
+			if id, isID := ast.Unparen(x.Lhs[0]).(*ast.Ident); isID {
+				obj := c.Info.Defs[id]
+				if obj == nil {
+					obj = c.Info.Uses[id]
+				}
+				tv, has := c.Info.Types[x.Rhs[0]]
+				if obj != nil && has && tv.Value == nil && c.flagLocal(obj) && isCondExpr(x.Rhs[0]) {
+					if idx, ok := c.atomOf(obj, true); ok {
+						t, f := c.cond(x.Rhs[0], in)
+						var out []cst
+						for _, grp := range []struct {
+							set []cst
+							v   Tri
+						}{{t, True}, {f, False}} {
+							if len(grp.set) == 0 {
+								continue
+							}
+							c.keep = map[types.Object]bool{obj: true}
+							o := c.assignEvent(x, x.Lhs, x.Rhs, x.Tok, grp.set)
+							c.keep = nil
+							for k := range o {
+								o[k].s.V[idx] = grp.v
+							}
+							out = append(out, o...)
+						}
+						return flow{out: dedup(out)}
+					}
+				}
 			}
 		}
 		for _, r := range x.Rhs {
